@@ -33,9 +33,9 @@ func genJSONRun(p *prng) jsonRun {
 		"oa":  []interface{}{map[string]interface{}{"q": float64(p.intn(3))}},
 	}
 	b, _ := json.Marshal(doc)
-	// one spelling per location: a member of a JSON object can also be written o["k"], and the two spellings do not
-	// invalidate each other (known finding D25, shown by the fixed witness below; never generated at random)
-	nums := []string{"J.n", "J.m", "J.o.k", "J.o.deep.z", "J.arr[0]", "J.arr[1]", "J.oa[0].q", "J.o[\"j\"]", "J.arr[J.m]"}
+	// a member of a JSON object has two spellings, o.k and o["k"]; an element can be reached by a literal or a computed
+	// selector, with members below it (D25, repaired): all of them are used side by side
+	nums := []string{"J.n", "J.m", "J.o.k", "J.o[\"k\"]", "J.o.deep.z", "J[\"o\"].deep[\"z\"]", "J.arr[0]", "J.arr[1]", "J.oa[0].q", "J.oa[I].q", "J.o[\"j\"]", "J.arr[I]"}
 	pickNum := func() string { return pick(p, nums) }
 	sals := []int{5, 3, 1, 0, -2, 9}
 	for i := len(sals) - 1; i > 0; i-- {
@@ -58,7 +58,7 @@ func genJSONRun(p *prng) jsonRun {
 			add(fmt.Sprintf("Up%d", i), fmt.Sprintf("%s + %s < %d", x, pickNum(), lim+2), fmt.Sprintf("%s += 1;", x))
 		default:
 			// a computed selector next to a literal one on the same array (the element reset of D3's repair)
-			add(fmt.Sprintf("Up%d", i), fmt.Sprintf("J.arr[0] < %d", lim), "J.arr[J.m - J.m] = J.arr[0] + 1;")
+			add(fmt.Sprintf("Up%d", i), fmt.Sprintf("J.arr[0] < %d", lim), "J.arr[I] = J.arr[0] + 1;")
 		}
 	}
 	if p.chance(1, 2) {
@@ -112,6 +112,7 @@ func jsonFreshMatch(rule string, doc string) (bool, error) {
 	if err := dc.AddJSON("J", []byte(doc)); err != nil {
 		return false, err
 	}
+	dc.Add("I", int64(0))
 	res, err := (&engine.GruleEngine{MaxCycle: 5}).FetchMatchingRules(dc, kb)
 	return len(res) > 0, err
 }
@@ -130,6 +131,7 @@ func runJSONRun(r jsonRun) string {
 	if err := dc.AddJSON("J", []byte(r.Doc)); err != nil {
 		return "C01 (JSON facts): the JSON fact is rejected: " + err.Error()
 	}
+	dc.Add("I", int64(0)) // a Go integer for computed selectors (JSON numbers are float64 and cannot index)
 	l := &jsonRunListener{dc: dc, states: map[uint64]string{}}
 	eng := &engine.GruleEngine{MaxCycle: r.MaxCycle, Listeners: []engine.GruleEngineListener{l}}
 	runErr := eng.Execute(dc, kb)
@@ -171,10 +173,15 @@ func runJSONRun(r jsonRun) string {
 	return ""
 }
 
-// the witness of D25: the same member of a JSON object read as o["k"] and assigned as o.k
-const d25Key = "D25-json-member-two-spellings"
-
-func d25Witness() jsonRun {
-	return jsonRun{Kind: "jsonrun", Doc: `{"o":{"k":0}}`, MaxCycle: 8, Names: []string{"Up"},
-		Rules: []string{"rule Up \"two spellings of one member\" salience 0 {\n  when J.o[\"k\"] < 2\n  then\n    J.o.k = J.o.k + 1;\n}\n"}}
+// former witnesses of D25 (repaired by engine commit 74f90dc): two spellings of one member of a JSON object; a member
+// below an element reached through a computed selector.  They run first on every check and must pass.
+func d25Witnesses() []jsonRun {
+	return []jsonRun{
+		{Kind: "jsonrun", Doc: `{"o":{"k":0}}`, MaxCycle: 8, Names: []string{"Up"},
+			Rules: []string{"rule Up \"two spellings of one member\" salience 0 {\n  when J.o[\"k\"] < 2\n  then\n    J.o.k = J.o.k + 1;\n}\n"}},
+		{Kind: "jsonrun", Doc: `{"o":{"k":0}}`, MaxCycle: 8, Names: []string{"Up"},
+			Rules: []string{"rule Up \"two spellings of the container\" salience 0 {\n  when J[\"o\"][\"k\"] < 2\n  then\n    J.o.k = J.o.k + 1;\n}\n"}},
+		{Kind: "jsonrun", Doc: `{"oa":[{"q":0}]}`, MaxCycle: 8, Names: []string{"Up"},
+			Rules: []string{"rule Up \"computed element, member below\" salience 0 {\n  when J.oa[0].q < 2\n  then\n    J.oa[I].q = J.oa[I].q + 1;\n}\n"}},
+	}
 }
